@@ -22,7 +22,7 @@
 From Coq Require Import List String NArith Bool.
 From FIM Require Import Base.Str Model.Sliver2Kinds Gen.PropMap Model.Sliver2Map Model.Sliver2WF
   Model.Sliver2Deep Model.Sliver2DeepWF Model.Sliver2Graph Model.Sliver2GraphWF Proofs.Sliver2Multi
-  Proofs.Sliver2DeepRT Proofs.Sliver2Tables.
+  Proofs.Sliver2DeepRT Proofs.Sliver2Tables Model.Sliver2Store Proofs.Sliver2History.
 Import ListNotations.
 
 (* the translator recognised every statement of the conversion functions (fail-closed flag) *)
@@ -116,6 +116,59 @@ Theorem C02_graph_under : forall g parent t,
                      get_first_neighbor g' x rel L = get_first_neighbor g x rel L).
 Proof. exact graph_under. Qed.
 Print Assumptions C02_graph_under.
+
+(* FRAME AFTER ANY HISTORY.  run_history: any sequence of slivers written (stand-alone or under a
+   parent) and nodes removed (delete_node: the node and its incident edges), starting from the empty
+   graph; refused operations leave the graph as it was.  Every graph so reached is well-formed
+   (C02_history_good), hence a sliver with fresh ids written next comes back identical and every node that
+   was in the graph keeps its properties and - except the parent, which gains the new root - its links. *)
+Theorem C02_history_good : forall h g, good_graph g = true -> good_graph (run_history g h) = true.
+Proof. exact history_good. Qed.
+Print Assumptions C02_history_good.
+
+Theorem C02_graph_history_frame : forall h parent t,
+  let g := run_history empty_graph h in
+  graph_wf_sub t = true -> fresh_in g t = true -> parent_ok g parent t = true ->
+  exists g', add_under g parent t = Ok g' /\
+    build_deep g' (t_kind t) (id_of t) = Ok t /\
+    (forall x, In x (gids g) -> find_node g' x = find_node g x) /\
+    (forall x rel L, In x (gids g) -> parent <> Some x ->
+                     get_first_neighbor g' x rel L = get_first_neighbor g x rel L).
+Proof. exact history_frame. Qed.
+Print Assumptions C02_graph_history_frame.
+
+(* EITHER STORE.  Under the graph view both in-memory stores keep NetworkX nodes under internal integer
+   ids handed out by a counter (one global start_id, or one per graph) that removal never moves back
+   (sgraph, s_add_node alloc_counter, s_delete_node).  With the store invariant (internal ids distinct
+   and below the counter, NodeIDs distinct, edges between nodes) the id handed to a new node is never in
+   use - also after removals - and add_node on the store is add_node on the graph view. *)
+Theorem C02_store_counter_fresh : forall s, store_ok s = true -> ~ In (alloc_counter s) (s_ids s).
+Proof. exact counter_fresh. Qed.
+Print Assumptions C02_store_counter_fresh.
+
+Theorem C02_store_removal_keeps_fresh : forall s id s',
+  store_ok s = true -> s_delete_node s id = Ok s' ->
+  (forall k, In k (s_ids s') -> (k < s_ctr s')%N) /\ ~ In (alloc_counter s') (s_ids s').
+Proof. exact store_delete_keeps_fresh. Qed.
+Print Assumptions C02_store_removal_keeps_fresh.
+
+Theorem C02_store_add_node_refines : forall s id label p s',
+  store_ok s = true -> s_add_node alloc_counter s id label p = Ok s' ->
+  add_node (view s) id label p = Ok (view s').
+Proof. exact store_add_node_refines. Qed.
+Print Assumptions C02_store_add_node_refines.
+
+(* an allocator that derives the id from the number of nodes (seeded change C02-9) is refuted: after
+   A, B, C are added and A removed, it hands out C's internal id; the node written next takes C over *)
+Theorem C02_size_allocator_refuted :
+  store_ok s_after_removal = true /\
+  In (alloc_size s_after_removal) (s_ids s_after_removal) /\
+  exists s', s_add_node alloc_size s_after_removal (sn "D") "NetworkNode" [] = Ok s' /\
+             find_node (view s') (sn "C") = None /\
+             find_node (view s_after_removal) (sn "C") <> None /\
+             add_node (view s_after_removal) (sn "D") "NetworkNode" [] <> Ok (view s').
+Proof. exact size_allocator_refuted. Qed.
+Print Assumptions C02_size_allocator_refuted.
 
 (* GET AFTER SET, every element class, EVERY settable property (l' = the keyword after
    Node._complete_image_pair: the keyword itself, or - for a lone image_ref / image_type - the pair
@@ -268,6 +321,22 @@ Example C02_graph_under_nonvacuous :
     get_first_neighbor g2 (S"n1") rel_has (class_label KComponent) = Ok [S"c1"; S"c9"] /\
     build_deep g2 KComponent (S"c1") = Ok w_comp.
 Proof. exact graph_under_example. Qed.
+
+(* a history with a removal of a node that is not the newest, then a write under the node: the
+   hypotheses of C02_graph_history_frame hold; and the counter allocator keeps node C in the scenario
+   that refutes the size allocator *)
+Example C02_history_nonvacuous :
+  let g := run_history empty_graph w_history in
+  List.length (g_nodes g) = 4%nat /\ graph_wf_sub w_comp2 = true /\ fresh_in g w_comp2 = true /\
+  parent_ok g (Some (S"n1")) w_comp2 = true.
+Proof. exact history_example. Qed.
+
+Example C02_counter_allocator_keeps_nodes :
+  store_ok s_after_removal_ctr = true /\
+  exists s', s_add_node alloc_counter s_after_removal_ctr (sn "D") "NetworkNode" [] = Ok s' /\
+             find_node (view s') (sn "C") = find_node (view s_after_removal_ctr) (sn "C") /\
+             find_node (view s') (sn "C") <> None.
+Proof. exact counter_allocator_example. Qed.
 
 Example C02_deep_nonvacuous :
   tree_wf w_tree = true /\ bind (to_dict w_tree) (from_dict KNode) = Ok (forget_ids w_tree)
